@@ -8,7 +8,9 @@
 (* quantised to units of 1/Q and the joint rewards in thousandths.  One trace is one      *)
 (* Expand action here; it is explained iff every logged outcome is an allowed move of    *)
 (* the abstract game, every row sums to one, own-goal states lead to the terminal state, *)
-(* and the terminal state is absorbing and pays nothing.  Verdicts are total: the set    *)
+(* the terminal state is absorbing and pays nothing, and the per-agent marginals that    *)
+(* marginalize() returns for the logged table are normalised and are the marginals of the *)
+(* logged joint distribution.  Verdicts are total: the set                                *)
 (* `bad` names every (joint action, outcome, clause) that is not explained, and is       *)
 (* emitted per trace (ACCEPT iff empty).  The clause predicates are additionally listed  *)
 (* as invariants so that a failing clause is also a TLC counterexample.                  *)
@@ -31,10 +33,23 @@ SatSum(row, k) == IF k = 0 THEN 0 ELSE SatAdd(row[k].q, SatSum(row, k - 1))
 SumOK(row) == AbsI(SatSum(row, Len(row)) - Q) <= Len(row) + 1
 
 Fail(k, n, c) == [ja |-> k, n |-> n, c |-> c]
+\* The per-agent marginal that marginalize() returns for the logged distribution: it must be normalised
+\* and equal the marginal of the logged joint row (each logged value is off by at most one unit).
+JointMass(row, i, c) == LET sel == SelectSeq(row, LAMBDA o : o.n[i] = c) IN SatSum(sel, Len(sel))
+MargFails(k, row, mm) ==
+  IF Len(row) = 0 THEN {}                       \* no distribution at all: the "sum" clause reports it
+  ELSE UNION {
+         (IF SumOK(mm[i]) THEN {} ELSE {Fail(k, T, "marginal-sum")})
+         \cup {Fail(k, <<mm[i][j].c, mm[i][j].c>>, "marginal") : j \in
+                 {j \in 1..Len(mm[i]) : AbsI(mm[i][j].q - JointMass(row, i, mm[i][j].c)) > Len(row) + 1}}
+         \cup {Fail(k, row[o].n, "marginal") : o \in
+                 {o \in 1..Len(row) : \A j \in 1..Len(mm[i]) : mm[i][j].c # row[o].n[i]}}
+       : i \in Agents }
 \* everything in the event that the abstract game does not explain
 Judge(LL, ev) ==
   UNION {
     (IF SumOK(ev.rows[k]) THEN {} ELSE {Fail(k, T, "sum")})
+    \cup MargFails(k, ev.rows[k], ev.marg[k])
     \cup UNION { {Fail(k, ev.rows[k][o].n, c) : c \in Clauses(LL, ev.s, JaOf(k), ev.rows[k][o].n)}
                  \cup (IF ev.s = T /\ ev.rows[k][o].r # <<0, 0>> THEN {Fail(k, ev.rows[k][o].n, "terminal-pays")} ELSE {})
                  \cup (IF LL.capped = 0 /\ ev.rows[k][o].n \notin Range(LL.states) THEN {Fail(k, ev.rows[k][o].n, "closure")} ELSE {})
@@ -81,6 +96,9 @@ TrNotThroughWall    == ~Has("wall")
 TrAtMostOneCell     == ~Has("more-than-one-cell") /\ ~Has("terminal-from-non-goal-state")
 TrGoalLeadsToTerminal == ~Has("own-goal-not-terminal")
 TrTerminalAbsorbing == ~Has("terminal-not-absorbing") /\ ~Has("terminal-pays")
+\* every per-agent marginal of a returned distribution is itself a normalised distribution and is the
+\* marginal of the joint one
+TrMarginal          == ~Has("marginal") /\ ~Has("marginal-sum")
 \* the recorded state set really is closed and well formed (a failure here is the harness's fault)
 TrClosed            == ~Has("closure") /\ ~Has("malformed")
 =============================================================================
